@@ -54,6 +54,10 @@ class Monitor:
     # ------------------------------------------------------------------
     def req(self, cond, tag, structural=False, info=None):
         ctx = self.ctx
+        if tag.startswith("C01.") and self.passes_done >= 1 and not ctx.is_fatal(tag) \
+                and ctx.is_fatal("C09.repeat_executable"):
+            # executability of a FURTHER adjoint calculation is what C09 promises
+            tag = "C09.repeat_executable"
         if ctx.is_fatal(tag):
             ctx.require(cond, tag, info or self._info, soft=not structural)
         elif structural:
